@@ -471,6 +471,20 @@ func (sc *c11Scenario) laws(s *simrt.Sim, add func(clause, fp, detail string)) {
 			add("once-per-evaluation", "nil-pointer-in-the-middle-of-a-chain", fmt.Sprintf("New(nil *box).FlatMap(fallback).FlatMap(id).Eval() = %v after %d step marks (want the fallback box 7, marks 11)", r, steps))
 		}
 	}
+	// aliasing: the function given to FlatMap returns the very MonadIO it was bound to ("m; m") - the composition runs
+	// m's effect twice per evaluation and yields the second value
+	{
+		n := 0
+		var ma *fpgo.MonadIODef[int]
+		ma = fpgo.MonadIONewGenerics(func() int { n++; return n * 10 })
+		mm := ma.FlatMap(func(int) *fpgo.MonadIODef[int] { return ma })
+		v1 := mm.Eval()
+		n1 := n
+		v2 := mm.FlatMap(func(v int) *fpgo.MonadIODef[int] { return fpgo.MonadIOJustGenerics(v + 1) }).Eval()
+		if v1 != 20 || n1 != 2 || v2 != 41 || n != 4 {
+			add("once-per-evaluation", "FlatMap-function-returning-its-own-source", fmt.Sprintf("m.FlatMap(func(_) { return m }).Eval() = %d after %d effect runs (want 20 after 2); followed by .FlatMap(+1).Eval() = %d after %d runs in total (want 41 after 4)", v1, n1, v2, n))
+		}
+	}
 	// re-entrancy: an OnNext that subscribes the same MonadIO again and re-configures it - every (nested) Subscribe
 	// is an evaluation of its own: the effect and OnNext once per Subscribe
 	{
